@@ -558,4 +558,122 @@ theorem writeChunks_acked {σ} (send : Send σ) (id : Nat) :
           simp [writeReq]
     | _ => intro hout; simp [castErr] at hout
 
+/-! ### the write stops AT the first answer that is not the exact acknowledgement
+
+  `offered send dev id off cs` is the transcript of the peer when ALL chunk requests of a write are put to
+  it in order, whatever it answers (a definition about the peer and the chunking only - it does not look at
+  the library's checks): request `i` is Write FRU Data for FRU `id` at `off + |c₀| + … + |cᵢ₋₁|` carrying
+  `cᵢ`.  The write loop of the library must perform a PREFIX of it: up to and including the first exchange
+  whose answer is not "OK, exactly the bytes of this request". -/
+
+def offered {σ} (send : Send σ) : σ → Nat → Nat → List (List Nat) → List Xchg
+  | _, _, _, [] => []
+  | s, id, off, c :: cs =>
+    ⟨writeReq id off c, (send s (writeReq id off c).cmd (writeReq id off c).payload).2⟩ ::
+      offered send (send s (writeReq id off c).cmd (writeReq id off c).payload).1 id (off + c.length) cs
+
+/-- the requests of a write, from the chunking alone -/
+def chunkReqs (id : Nat) : Nat → List (List Nat) → List Wire
+  | _, [] => []
+  | off, c :: cs => writeReq id off c :: chunkReqs id (off + c.length) cs
+
+theorem offered_reqs {σ} (send : Send σ) (id : Nat) :
+    ∀ (cs : List (List Nat)) (s : σ) (off : Nat),
+      (offered send s id off cs).map (·.req) = chunkReqs id off cs := by
+  intro cs
+  induction cs with
+  | nil => intro s off; rfl
+  | cons c cs ih => intro s off; simp [offered, chunkReqs, ih]
+
+theorem offered_length {σ} (send : Send σ) (id : Nat) :
+    ∀ (cs : List (List Nat)) (s : σ) (off : Nat), (offered send s id off cs).length = cs.length := by
+  intro cs
+  induction cs with
+  | nil => intro s off; rfl
+  | cons c cs ih => intro s off; simp [offered, ih]
+
+/-- the exchange is "completion code 00h, count = the data bytes of the request" -/
+def ExactAck (x : Xchg) : Prop := decodeWriteRsp x.rsp = .ok (x.req.payload.length - 3)
+
+instance (x : Xchg) : Decidable (ExactAck x) := by unfold ExactAck; exact inferInstance
+
+/-- what `write_fru_data` ends with when the answer `raw` is not the exact acknowledgement: the library's
+`Exception` for a well-formed acknowledgement of another count, the decoder's / completion-code error else -/
+def stopOutcome (raw : List Nat) : Outcome Unit :=
+  match decodeWriteRsp raw with
+  | .ok _ => .pyError "Exception"
+  | e => castErr e
+
+theorem writeReq_len (id off : Nat) (c : List Nat) : (writeReq id off c).payload.length - 3 = c.length := by
+  simp [writeReq]
+
+/-- The write loop, for ANY peer and ANY chunk list: if exchange `k` of the offered transcript is the first
+that is not an exact acknowledgement, the loop performs exactly the exchanges `0..k` and ends with
+`stopOutcome` of answer `k` - the answers the peer would have given to the later requests play no role. -/
+theorem writeChunks_stops_at_first_bad {σ} (send : Send σ) (id : Nat) :
+    ∀ (cs : List (List Nat)) (w : World σ) (off k : Nat) (x : Xchg),
+      (offered send w.dev id off cs)[k]? = some x →
+      (∀ i, i < k → ∀ y, (offered send w.dev id off cs)[i]? = some y → ExactAck y) →
+      ¬ ExactAck x →
+      (writeChunks send w id off cs).out = stopOutcome x.rsp ∧
+      (writeChunks send w id off cs).w.trace = w.trace ++ (offered send w.dev id off cs).take (k + 1) := by
+  intro cs
+  induction cs with
+  | nil => intro w off k x hk; simp [offered] at hk
+  | cons c cs ih =>
+    intro w off k x hk hbefore hbad
+    cases k with
+    | zero =>
+      simp only [offered, List.getElem?_cons_zero, Option.some.injEq] at hk
+      subst hk
+      simp only [ExactAck, writeReq_len] at hbad
+      unfold writeChunks
+      simp only [FruXfer.xchg, stopOutcome, offered, List.take_succ_cons, List.take_zero]
+      cases hdec : decodeWriteRsp (send w.dev (writeReq id off c).cmd (writeReq id off c).payload).2 with
+      | ok n =>
+        have hn : n ≠ c.length := by intro h; apply hbad; rw [hdec, h]
+        simp [hn]
+      | _ => simp
+    | succ k =>
+      have h0 := hbefore 0 (Nat.succ_pos k)
+        ⟨writeReq id off c, (send w.dev (writeReq id off c).cmd (writeReq id off c).payload).2⟩ (by simp [offered])
+      simp only [ExactAck, writeReq_len] at h0
+      simp only [offered, List.getElem?_cons_succ] at hk
+      have hb' : ∀ i, i < k → ∀ y,
+          (offered send (send w.dev (writeReq id off c).cmd (writeReq id off c).payload).1 id (off + c.length) cs)[i]?
+            = some y → ExactAck y := by
+        intro i hi y hy
+        exact hbefore (i + 1) (Nat.succ_lt_succ hi) y (by simpa [offered] using hy)
+      have := ih ⟨(send w.dev (writeReq id off c).cmd (writeReq id off c).payload).1,
+          w.trace ++ [⟨writeReq id off c, (send w.dev (writeReq id off c).cmd (writeReq id off c).payload).2⟩]⟩
+        (off + c.length) k x hk hb' hbad
+      unfold writeChunks
+      simp only [FruXfer.xchg, h0, ne_eq, not_true_eq_false, if_false]
+      refine ⟨this.1, ?_⟩
+      rw [this.2]
+      simp [offered]
+
+/-- … and if every offered exchange is an exact acknowledgement the loop performs all of them and returns. -/
+theorem writeChunks_all_acked {σ} (send : Send σ) (id : Nat) :
+    ∀ (cs : List (List Nat)) (w : World σ) (off : Nat),
+      (∀ y ∈ offered send w.dev id off cs, ExactAck y) →
+      (writeChunks send w id off cs).out = .ok () ∧
+      (writeChunks send w id off cs).w.trace = w.trace ++ offered send w.dev id off cs := by
+  intro cs
+  induction cs with
+  | nil => intro w off _; simp [writeChunks, offered]
+  | cons c cs ih =>
+    intro w off hall
+    have h0 := hall ⟨writeReq id off c, (send w.dev (writeReq id off c).cmd (writeReq id off c).payload).2⟩
+      (by simp [offered])
+    simp only [ExactAck, writeReq_len] at h0
+    have := ih ⟨(send w.dev (writeReq id off c).cmd (writeReq id off c).payload).1,
+        w.trace ++ [⟨writeReq id off c, (send w.dev (writeReq id off c).cmd (writeReq id off c).payload).2⟩]⟩
+      (off + c.length) (fun y hy => hall y (by simp [offered]; exact Or.inr hy))
+    unfold writeChunks
+    simp only [FruXfer.xchg, h0, ne_eq, not_true_eq_false, if_false]
+    refine ⟨this.1, ?_⟩
+    rw [this.2]
+    simp [offered]
+
 end PyIpmi.FruXfer
